@@ -31,7 +31,7 @@ def run(ctx):
     shapes, nshapes_total = _shapes(ctx, q)
     sf = ctx.path("shapes.ndjson")
     vlib.write_ndjson(sf, shapes)
-    out, tracep = common.harness_json(ctx, "c03", {"shapes_file": sf, "exhaustive_len": 2 if q else 3, "seed": ctx.seed,
+    out, tracep = common.harness_json(ctx, "c03", {"shapes_file": sf, "exhaustive_len": 2 if q else 3, "alphabet_extra": __import__("props.c19", fromlist=["x"])._alphabet(big=not q), "seed": ctx.seed,
                                                     "mutated": 1500 if q else 60000}, timeout=14000,
                                       env_extra={"VH_SCRATCH": ctx.work})
     for b in out["bad"]:
